@@ -4,31 +4,237 @@ package main
 // time; control can move only at synchronisation points (see yield).
 
 import (
+	"fmt"
 	"go/token"
 	"go/types"
 
 	"golang.org/x/tools/go/ssa"
 )
 
+// Implementation: every target goroutine runs on a host goroutine of its own, but
+// a baton (the wake channels) guarantees that exactly one of them executes engine
+// code at any time, so the Path needs no locking. At every synchronisation point
+// the running thread may hand the baton to any other runnable thread; which one
+// is a symbolic decision ("sched"), so the path explorer enumerates interleavings
+// exactly as it enumerates branches. Switching away from a thread that could have
+// continued counts as a preemption and is bounded by MaxSwitches; switches forced
+// by blocking are free.
 type scheduler struct {
-	threads []*thread
-	cur     int
+	threads  []*thread
+	cur      int
+	switches int
+	pending  interface{} // an engine unwind raised on a child thread, re-raised on thread 0
+	finished bool
 }
 
 type thread struct {
-	id   int
-	done bool
+	id      int
+	wake    chan struct{}
+	done    bool
+	blocked func() bool // nil: runnable; else runnable once it reports true
+	what    string
+	depth   int
+	killed  bool
+	started bool
 }
 
-func (s *scheduler) finish(p *Path) {}
+type killSignal struct{}
+
+func (p *Path) ensureSched() *scheduler {
+	if p.sched == nil {
+		p.sched = &scheduler{threads: []*thread{{id: 0, wake: make(chan struct{}), started: true}}}
+	}
+	return p.sched
+}
+
+func (t *thread) runnable() bool {
+	if t.done {
+		return false
+	}
+	return t.blocked == nil || t.blocked()
+}
+
+// transfer hands the baton to thread `to` and parks the caller (thread `from`)
+// until it is woken again. Returns on the caller's host goroutine.
+func (p *Path) transfer(from, to *thread) {
+	s := p.sched
+	from.depth = p.depth
+	s.cur = to.id
+	to.wake <- struct{}{}
+	<-from.wake
+	p.depth = from.depth
+	if from.killed {
+		panic(killSignal{})
+	}
+	if from.id == 0 && s.pending != nil {
+		r := s.pending
+		s.pending = nil
+		panic(r)
+	}
+}
 
 func (p *Path) spawn(fr *frame, instr *ssa.Go, fn Value, args []Value) {
-	p.abortf(abortUnsupported, "go statement at %s (scheduler not enabled)", p.posStr(instr.Pos()))
+	if !p.h.Sched {
+		p.abortf(abortUnsupported, "go statement at %s (scheduler not enabled: //verif:sched)", p.posStr(instr.Pos()))
+	}
+	s := p.ensureSched()
+	if len(s.threads) >= 8 {
+		p.abortf(abortBudget, "more than 8 goroutines")
+	}
+	t := &thread{id: len(s.threads), wake: make(chan struct{})}
+	s.threads = append(s.threads, t)
+	pos := instr.Pos()
+	go func() {
+		<-t.wake
+		t.started = true
+		defer func() {
+			r := recover()
+			t.done = true
+			if r != nil {
+				if _, isKill := r.(killSignal); !isKill && s.pending == nil {
+					if tp, isT := r.(targetPanic); isT {
+						// an uncaught panic in a goroutine takes the whole program down
+						func() {
+							defer func() { s.pending = recover() }()
+							p.fatal("panic in goroutine: " + p.panicString(tp))
+						}()
+					} else {
+						s.pending = r
+					}
+				}
+			}
+			if t.killed {
+				s.threads[0].wake <- struct{}{}
+				return
+			}
+			p.handoffFromDead(t)
+		}()
+		if t.killed {
+			return
+		}
+		p.depth = 0
+		p.call(nil, pos, fn, args)
+	}()
+	p.yield("go")
 }
 
-func (p *Path) yield(why string) {}
+// handoffFromDead passes the baton on when thread t has ended.
+func (p *Path) handoffFromDead(t *thread) {
+	s := p.sched
+	if s.pending != nil {
+		s.cur = 0
+		s.threads[0].wake <- struct{}{}
+		return
+	}
+	var cands []*thread
+	for _, o := range s.threads {
+		if o != t && o.runnable() {
+			cands = append(cands, o)
+		}
+	}
+	if len(cands) == 0 {
+		// everything else is blocked: a deadlock, reported on thread 0
+		func() {
+			defer func() { s.pending = recover() }()
+			p.fatal("all goroutines are asleep - deadlock! (" + p.blockedSummary() + ")")
+		}()
+		s.cur = 0
+		s.threads[0].wake <- struct{}{}
+		return
+	}
+	next := cands[0]
+	if len(cands) > 1 {
+		var r interface{}
+		func() {
+			defer func() { r = recover() }()
+			next = cands[p.schedChoice(len(cands))]
+		}()
+		if r != nil {
+			s.pending = r
+			s.cur = 0
+			s.threads[0].wake <- struct{}{}
+			return
+		}
+	}
+	s.cur = next.id
+	next.wake <- struct{}{}
+}
 
-func (p *Path) curThread() int { return 0 }
+func (p *Path) blockedSummary() string {
+	out := ""
+	for _, t := range p.sched.threads {
+		if !t.done && t.blocked != nil {
+			if out != "" {
+				out += "; "
+			}
+			out += fmt.Sprintf("goroutine %d: %s", t.id, t.what)
+		}
+	}
+	return out
+}
+
+// schedChoice: a symbolic pick among n alternatives, explored like any branch.
+func (p *Path) schedChoice(n int) int {
+	sel := p.freshChoice("sched", n)
+	conds := make([]*Term, n)
+	for j := 0; j < n; j++ {
+		conds[j] = p.ts.Eq(sel, p.intConst(int64(j), tInt))
+	}
+	// the selector is fresh and unconstrained: every alternative is feasible, so the
+	// solver is not consulted (replay and concrete modes go through decide as usual)
+	if p.concModel != nil || p.pos < len(p.prefix) {
+		return p.decide(conds, "sched")
+	}
+	if len(p.decisions) >= p.h.MaxDecisions {
+		p.abortf(abortBudget, "more than %d symbolic decisions on one path", p.h.MaxDecisions)
+	}
+	for j := 1; j < n; j++ {
+		np := make([]int, len(p.decisions)+1)
+		copy(np, p.decisions)
+		np[len(p.decisions)] = j
+		p.forks = append(p.forks, workItem{prefix: np})
+	}
+	p.decisions = append(p.decisions, 0)
+	p.decKinds = append(p.decKinds, "sched")
+	p.assertPC(conds[0])
+	return 0
+}
+
+// yield is a synchronisation point at which the scheduler may preempt the
+// running thread.
+func (p *Path) yield(why string) {
+	s := p.sched
+	if s == nil || len(s.threads) < 2 || s.finished {
+		return
+	}
+	if s.switches >= p.h.MaxSwitches {
+		return
+	}
+	me := s.threads[s.cur]
+	cands := []*thread{me}
+	for _, o := range s.threads {
+		if o != me && o.runnable() {
+			cands = append(cands, o)
+		}
+	}
+	if len(cands) == 1 {
+		return
+	}
+	k := p.schedChoice(len(cands))
+	if k == 0 {
+		return
+	}
+	s.switches++
+	p.tracef("sched: preempt goroutine %d at %s -> goroutine %d", me.id, why, cands[k].id)
+	p.transfer(me, cands[k])
+}
+
+func (p *Path) curThread() int {
+	if p.sched == nil {
+		return 0
+	}
+	return p.sched.cur
+}
 
 // waitUntil blocks the current thread until cond holds. Without other runnable
 // threads a false condition is a deadlock.
@@ -36,7 +242,52 @@ func (p *Path) waitUntil(cond func() bool, what string, pos token.Pos) {
 	if cond() {
 		return
 	}
-	p.fatal("all goroutines are asleep - deadlock! (" + what + " at " + p.posStr(pos) + ")")
+	s := p.sched
+	if s == nil || len(s.threads) < 2 {
+		if p.suspendable > 0 {
+			panic(suspendSignal{what})
+		}
+		p.fatal("all goroutines are asleep - deadlock! (" + what + " at " + p.posStr(pos) + ")")
+	}
+	me := s.threads[s.cur]
+	me.blocked, me.what = cond, what+" at "+p.posStr(pos)
+	for !cond() {
+		var cands []*thread
+		for _, o := range s.threads {
+			if o != me && o.runnable() {
+				cands = append(cands, o)
+			}
+		}
+		if len(cands) == 0 {
+			if p.suspendable > 0 {
+				me.blocked = nil
+				panic(suspendSignal{what})
+			}
+			sum := p.blockedSummary()
+			me.blocked = nil
+			p.fatal("all goroutines are asleep - deadlock! (" + sum + ")")
+		}
+		next := cands[0]
+		if len(cands) > 1 {
+			next = cands[p.schedChoice(len(cands))]
+		}
+		p.transfer(me, next)
+	}
+	me.blocked = nil
+}
+
+// finish ends the path: every thread that has not ended is unwound.
+func (s *scheduler) finish(p *Path) {
+	s.finished = true
+	main := s.threads[0]
+	for _, t := range s.threads[1:] {
+		if t.done {
+			continue
+		}
+		t.killed = true
+		t.wake <- struct{}{}
+		<-main.wake
+	}
 }
 
 // suspendSignal unwinds the interpreter (without running the target's deferred
@@ -52,6 +303,8 @@ func (p *Path) wouldBlock(what string) {
 	p.abortf(abortUnsupported, "%s", what)
 }
 
+func (p *Path) multi() bool { return p.sched != nil && len(p.sched.threads) > 1 && !p.sched.finished }
+
 func (p *Path) chanSend(cv Value, v Value) {
 	ch, ok := cv.(*ChanV)
 	if !ok {
@@ -60,6 +313,9 @@ func (p *Path) chanSend(cv Value, v Value) {
 	if ch == nil {
 		p.abortf(abortUnsupported, "send on nil channel blocks forever")
 	}
+	if p.multi() {
+		p.yield("chan send")
+	}
 	if ch.Closed {
 		p.targetPanicStr("send on closed channel")
 	}
@@ -67,7 +323,22 @@ func (p *Path) chanSend(cv Value, v Value) {
 		ch.Buf = append(ch.Buf, copyVal(v))
 		return
 	}
-	p.wouldBlock("channel send would block (no runnable receiver)")
+	if !p.multi() {
+		p.wouldBlock("channel send would block (no runnable receiver)")
+	}
+	if ch.Cap > 0 {
+		p.waitUntil(func() bool { return ch.Closed || len(ch.Buf) < ch.Cap }, "chan send", token.NoPos)
+		if ch.Closed {
+			p.targetPanicStr("send on closed channel")
+		}
+		ch.Buf = append(ch.Buf, copyVal(v))
+		return
+	}
+	// unbuffered: the value is staged and the sender waits until a receiver has taken it
+	ticket := ch.Sent
+	ch.Sent++
+	ch.Buf = append(ch.Buf, copyVal(v))
+	p.waitUntil(func() bool { return ch.Recvd > ticket }, "chan send (unbuffered)", token.NoPos)
 }
 
 func (p *Path) chanRecv(cv Value, commaOk bool, instr *ssa.UnOp) Value {
@@ -78,9 +349,14 @@ func (p *Path) chanRecv(cv Value, commaOk bool, instr *ssa.UnOp) Value {
 	if ch == nil {
 		p.abortf(abortUnsupported, "receive on nil channel blocks forever")
 	}
+	if p.multi() {
+		p.yield("chan recv")
+		p.waitUntil(func() bool { return len(ch.Buf) > 0 || ch.Closed }, "chan receive", instr.Pos())
+	}
 	if len(ch.Buf) > 0 {
 		v := ch.Buf[0]
 		ch.Buf = ch.Buf[1:]
+		ch.Recvd++
 		if commaOk {
 			return TupleV{v, p.ts.Bool(true)}
 		}
@@ -125,6 +401,28 @@ func (p *Path) doSelect(fr *frame, instr *ssa.Select) Value {
 		}
 		return r
 	}
+	ready := func() bool {
+		for _, st := range instr.States {
+			ch, _ := fr.get(st.Chan).(*ChanV)
+			if ch == nil {
+				continue
+			}
+			if st.Dir == types.RecvOnly {
+				if len(ch.Buf) > 0 || ch.Closed {
+					return true
+				}
+			} else if ch.Closed || len(ch.Buf) < ch.Cap {
+				return true
+			}
+		}
+		return false
+	}
+	if p.multi() {
+		p.yield("select")
+		if instr.Blocking {
+			p.waitUntil(ready, "select", instr.Pos())
+		}
+	}
 	for i, st := range instr.States {
 		ch, _ := fr.get(st.Chan).(*ChanV)
 		if ch == nil {
@@ -134,6 +432,7 @@ func (p *Path) doSelect(fr *frame, instr *ssa.Select) Value {
 			if len(ch.Buf) > 0 {
 				v := ch.Buf[0]
 				ch.Buf = ch.Buf[1:]
+				ch.Recvd++
 				return mk(i, true, v)
 			}
 			if ch.Closed {
